@@ -232,6 +232,10 @@ def build_query(q, cache, ll2c, qdir, witness):
             newline = re.sub(r"^define (linkonce_odr |weak_odr |weak |internal )?", "define weak ", line)
             newline = re.sub(r" comdat(\(\$[^)]*\))?", "", newline)
             txt = txt.replace(line, newline)
+            # aliases of the stubbed symbol (C1 -> C2 constructors) would keep naming the library body: retarget their uses to the stubbed symbol
+            for am in re.finditer(r"^@(\S+) = [^\n]*\balias\b[^\n]*@" + re.escape(sym) + r"\s*$", txt, re.M):
+                txt = txt.replace(am.group(0) + "\n", "")
+                txt = re.sub(r"@" + re.escape(am.group(1)) + r"\b", "@" + sym, txt)
         lib = os.path.join(qdir, f"libs.{tag}.ll"); open(lib, "w").write(txt)
     if q.expose:
         txt = open(lib).read()
